@@ -8,7 +8,8 @@
 (* renders").                                                              *)
 (*                                                                         *)
 (* An invocation is a record                                               *)
-(*   [bin, version, set, mset, setkeys, precision, f, o, obad, p, t, gdd,   *)
+(*   [bin, version, set, mset, setkeys, precision, f, o, obad, oin, p, t,   *)
+(*    gdd,                                                                 *)
 (*    yaml,                                                                *)
 (*    color, nargs, stdin, in1, in2, pair]                                 *)
 (* (in2 = "mismatch": in patch mode the target is not the document the      *)
@@ -112,7 +113,7 @@ ExitRange == phase = "done" => result.exit \in {0, 1, 2}
 (* ---- the invocation matrix ------------------------------------------------------- *)
 Bins == {"v2", "top", "topv1"}
 Base == [bin |-> "v2", version |-> FALSE, set |-> FALSE, mset |-> FALSE, setkeys |-> "", precision |-> 0, f |-> "",
-         o |-> FALSE, obad |-> FALSE, p |-> FALSE, t |-> "", gdd |-> FALSE, yaml |-> FALSE, color |-> FALSE, nargs |-> 2, stdin |-> FALSE,
+         o |-> FALSE, obad |-> FALSE, oin |-> "", p |-> FALSE, t |-> "", gdd |-> FALSE, yaml |-> FALSE, color |-> FALSE, nargs |-> 2, stdin |-> FALSE,
          in1 |-> "ok", in2 |-> "ok", pair |-> 1]
 
 (* valid diff / patch-round-trip invocations: array reading x format x yaml x color x -o x stdin x binary x pair *)
@@ -154,6 +155,13 @@ BigInvocations(BigPair) ==
 (* edge pairs (a root replaced by an empty container, null, false, the empty string ...): every format, list and set reading *)
 EdgeInvocations(Pairs) ==
   { [Base EXCEPT !.bin = b, !.set = st, !.f = f, !.pair = pr] : b \in Bins, st \in BOOLEAN, f \in {"", "jd", "patch", "merge"}, pr \in Pairs }
+
+(* -o names one of the input files (patching or translating in place): the file afterwards holds what the library renders *)
+(* from the inputs as they were, exactly as with any other -o target                                                      *)
+InPlaceInvocations(Pairs) ==
+  { [Base EXCEPT !.bin = b, !.o = TRUE, !.oin = w, !.p = TRUE, !.f = f, !.pair = pr] : b \in Bins, w \in {"in1", "in2"}, f \in {"", "patch", "merge"}, pr \in Pairs } \cup
+  { [Base EXCEPT !.bin = b, !.o = TRUE, !.oin = w, !.f = f, !.pair = pr] : b \in Bins, w \in {"in1", "in2"}, f \in {"", "merge"}, pr \in Pairs } \cup
+  { [Base EXCEPT !.bin = b, !.o = TRUE, !.oin = "in1", !.t = t, !.nargs = 1, !.pair = pr] : b \in Bins, t \in {"json2yaml", "jd2patch"}, pr \in Pairs }
 
 TransInvocations(Pairs) ==
   { [Base EXCEPT !.bin = b, !.t = t, !.nargs = IF s THEN 0 ELSE 1, !.stdin = s, !.o = o, !.pair = pr] :
